@@ -2,6 +2,7 @@ package transformer
 
 import (
 	"fmt"
+	"io"
 	"net/url"
 	"strings"
 
@@ -71,8 +72,16 @@ const (
 func TransformModFile(data string) (*ModFile, error) { //nolint:cyclop
 	yamlModFile := &YAMLModFile{}
 
-	err := yaml.Unmarshal([]byte(data), yamlModFile)
-	if err != nil {
+	// the manifest is the first YAML document; whatever follows it is read as well, so that a syntax error
+	// behind the manifest (or in a later document) is reported like one inside it
+	decoder := yaml.NewDecoder(strings.NewReader(data))
+
+	err := decoder.Decode(yamlModFile)
+	for err == nil {
+		err = decoder.Decode(&yaml.Node{})
+	}
+
+	if err != io.EOF { //nolint:errorlint
 		return nil, err //nolint:wrapcheck
 	}
 
